@@ -53,8 +53,8 @@ theorem wt_zero_le : wt 0 ≤ 3 := by decide
 
 /-- what `PTDP.unpack` does once the two header words are decoded to `lsw`, `msw`; `body` = buffer[6:] -/
 def ptdpCore (t : PTDP.State) (lsw msw : Nat) (body : Bytes) : PTDP.State × R Bytes :=
-  let s1 := { t with length := msw + ((lsw &&& 0xF) <<< 12), fragment := (lsw >>> 4) &&& 0x3,
-                     content := (lsw >>> 6) &&& 0xF }
+  let s1 := { t with low_latency := false, length := msw + ((lsw &&& 0xF) <<< 12),
+                     fragment := (lsw >>> 4) &&& 0x3, content := (lsw >>> 6) &&& 0xF }
   if s1.length > PTDP_MAX_LEN then (s1, .error .ptdpLength)
   else if body.length < s1.length then (s1, .error .ptdpRemaining)
   else ({ s1 with payload := body.take s1.length }, .ok (body.drop s1.length))
@@ -121,7 +121,7 @@ theorem ptdp_pack_eq (s : PTDP.State) (h : PTDP_WF s) :
 theorem ptdp_unpack_noisy (s t : PTDP.State) (h : PTDP_WF s) (e1 e2 : Nat) (he1 : e1 < 2 ^ 24)
     (he2 : e2 < 2 ^ 24) (hw1 : wt e1 ≤ 3) (hw2 : wt e2 ≤ 3) (rest : Bytes) :
     PTDP.unpack t (noisyWord (lswOf s) e1 ++ noisyWord s.payload.length e2 ++ (s.payload ++ rest)) =
-      ({ s with length := s.payload.length, low_latency := t.low_latency }, .ok rest) := by
+      ({ s with length := s.payload.length, low_latency := false }, .ok rest) := by
   obtain ⟨hf, hc, hp⟩ := h
   have hl : lswOf s < 4096 := by simp only [lswOf]; omega
   rw [ptdp_unpack_words t _ _ _ (lswOf s) s.payload.length (by simp) (by simp)
